@@ -403,6 +403,13 @@ def search(ctx):
     rng = ctx.rng
     n = ctx.budget(2500, 25000)
     extra = []
+    # regression corpus: the witnesses of every finding recorded for this property (fixed ones must pass)
+    import common
+    for k in common.load_known(PID):
+        h = (k.get('witness') or {}).get('history')
+        if h and k.get('status') == 'fixed':
+            extra.append(h)
+            ctx.count('corpus-history')
     for d in ctx.disagreements[:20]:
         h = d['case'].get('history')
         if h:
